@@ -321,76 +321,110 @@ def who_may_write(S, rep):
     rep.note("integral_mentions", len(hits))
 
 
-def wrappers_forward_options(S, rep, rule="C10.w"):
-    """wrapper agreement: every subclass of the interaction class must hand its constructor arguments to the base parameter of
-    the same name (reset mode, thread count, coefficients, dx ... are all plain positional values of compatible types, so a
-    transposition still runs), and must not swallow an option the base also has"""
-    base_rel = IBFI.replace(".", "/") + ".py"
-    base_tree = ast.parse(open(os.path.join(S.repo, base_rel)).read())
-    base = next((n for n in base_tree.body if isinstance(n, ast.ClassDef) and n.name == "ImmersedBodyFlowInteraction"), None)
-    binit = next((f for f in base.body if isinstance(f, ast.FunctionDef) and f.name == "__init__"), None) if base else None
-    if binit is None:
-        raise Unsupported("anchor vanished: ImmersedBodyFlowInteraction.__init__")
-    bparams = [a.arg for a in binit.args.args[1:]]
-    bkwonly = [a.arg for a in binit.args.kwonlyargs]
-    n_required = len(bparams) - len(binit.args.defaults)
-    found = 0
-    for root, _, files in os.walk(os.path.join(S.repo, "sopht")):
+def class_index(repo):
+    """name -> (ClassDef, relative file) for every class of the package (names are unique in sopht)"""
+    out = {}
+    for root, _, files in os.walk(os.path.join(repo, "sopht")):
         for f in sorted(files):
             if not f.endswith(".py"):
                 continue
             path = os.path.join(root, f)
-            rel = os.path.relpath(path, S.repo)
             tree = ast.parse(open(path).read())
             for cls in [n for n in ast.walk(tree) if isinstance(n, ast.ClassDef)]:
-                if not any((isinstance(b, ast.Name) and b.id == "ImmersedBodyFlowInteraction") or
-                           (isinstance(b, ast.Attribute) and b.attr == "ImmersedBodyFlowInteraction") for b in cls.bases):
-                    continue
-                init = next((x for x in cls.body if isinstance(x, ast.FunctionDef) and x.name == "__init__"), None)
-                if init is None:
-                    continue        # inherits the base constructor
-                wparams = {a.arg for a in init.args.args[1:]} | {a.arg for a in init.args.kwonlyargs}
-                calls = []
-                for n in ast.walk(init):
-                    if isinstance(n, ast.Call) and isinstance(n.func, ast.Attribute) and n.func.attr == "__init__":
-                        recv = ast.unparse(n.func.value)
-                        if recv == "super()":
-                            calls.append((n, list(n.args)))
-                        elif recv.endswith("ImmersedBodyFlowInteraction"):
-                            calls.append((n, list(n.args[1:])))
-                lab = "%s (%s)" % (cls.name, rel.split("/")[-1])
-                if len(calls) != 1:
-                    rep.ob(rule, lab + " calls the base constructor once", False, "%d base-constructor calls" % len(calls), key=rule + "|%s|ncalls" % cls.name)
-                    continue
-                call, pos = calls[0]
-                found += 1
-                if any(isinstance(a, ast.Starred) for a in pos):
-                    raise Unsupported("%s forwards *args to the base constructor" % cls.name)
-                bound = {}
-                for i, a in enumerate(pos):
-                    if i >= len(bparams):
-                        rep.ob(rule, lab, False, "too many positional arguments for the base constructor", key=rule + "|%s|arity" % cls.name)
-                        break
-                    bound[bparams[i]] = a
-                for kw in call.keywords:
-                    if kw.arg is not None:
-                        bound[kw.arg] = kw.value
-                wrong = []
-                for prm, a in bound.items():
-                    if isinstance(a, ast.Name) and a.id != prm and a.id in set(bparams) | set(bkwonly):
-                        wrong.append("its `%s` is passed as the base's `%s`" % (a.id, prm))
-                dropped = [q for q in (bparams + bkwonly) if q in wparams and q not in bound]
-                ok = not wrong and not dropped
-                why = "; ".join(wrong + ["its option `%s` is not forwarded" % q for q in dropped]) if not ok else \
-                    "%d arguments bound to the base parameters of the same name" % len(bound)
-                rep.ob(rule, lab + " forwards its arguments unchanged", ok, why, key=rule + "|%s|%s" % (cls.name, why[:120] if not ok else ""),
-                       sample={"wrapper": cls.name, "bound": {k: ast.unparse(v)[:40] for k, v in bound.items()}})
-                missing = [q for q in bparams[:n_required] if q not in bound]
-                if missing:
-                    rep.ob(rule, lab + " supplies the required arguments", False, "missing %s" % missing, key=rule + "|%s|missing" % cls.name)
-    rep.note("interaction_wrappers", found)
-    if found < 2:
-        raise Unsupported("expected the rigid-body and Cosserat-rod interaction wrappers, found %d subclasses" % found)
+                out.setdefault(cls.name, (cls, os.path.relpath(path, repo)))
+    return out
+
+
+def wrappers_forward_options(S, rep, rule="C10.w", family_root="VirtualBoundaryForcing", min_found=3):
+    """constructor agreement along an inheritance family: every class that calls the constructor of its base must bind each
+    argument that is a plain name to the base parameter of that very name (reset mode, thread count, coefficients, dx ... are
+    positional values of compatible types, so a transposition still runs), and must forward every option it shares with the
+    base.  Decided on the syntax tree with the base signature resolved through the package's classes."""
+    idx = class_index(S.repo)
+    if family_root not in idx:
+        raise Unsupported("anchor vanished: class %s" % family_root)
+
+    def bases_of(name):
+        cls = idx[name][0]
+        return [b.id if isinstance(b, ast.Name) else b.attr if isinstance(b, ast.Attribute) else None for b in cls.bases]
+
+    def in_family(name, seen=()):
+        if name == family_root:
+            return True
+        if name not in idx or name in seen:
+            return False
+        return any(b is not None and in_family(b, seen + (name,)) for b in bases_of(name))
+
+    def init_of(name):
+        """nearest __init__ along the first-base chain: (FunctionDef, owner)"""
+        while name in idx:
+            f = next((x for x in idx[name][0].body if isinstance(x, ast.FunctionDef) and x.name == "__init__"), None)
+            if f is not None:
+                return f, name
+            bs = [b for b in bases_of(name) if b in idx]
+            if not bs:
+                return None, None
+            name = bs[0]
+        return None, None
+    found = 0
+    for name in sorted(idx):
+        cls, rel = idx[name]
+        if name == family_root or not in_family(name):
+            continue
+        init = next((x for x in cls.body if isinstance(x, ast.FunctionDef) and x.name == "__init__"), None)
+        if init is None:
+            continue        # inherits the base constructor
+        pbases = [b for b in bases_of(name) if b in idx]
+        if not pbases:
+            continue
+        binit, bowner = init_of(pbases[0])
+        if binit is None:
+            continue
+        bparams = [a.arg for a in binit.args.args[1:]]
+        bkwonly = [a.arg for a in binit.args.kwonlyargs]
+        n_required = len(bparams) - len(binit.args.defaults)
+        wparams = {a.arg for a in init.args.args[1:]} | {a.arg for a in init.args.kwonlyargs}
+        calls = []
+        for n in ast.walk(init):
+            if isinstance(n, ast.Call) and isinstance(n.func, ast.Attribute) and n.func.attr == "__init__":
+                recv = ast.unparse(n.func.value)
+                if recv == "super()":
+                    calls.append((n, list(n.args)))
+                elif recv.split(".")[-1] in idx:
+                    calls.append((n, list(n.args[1:])))
+        lab = "%s -> %s (%s)" % (name, bowner, rel.split("/")[-1])
+        if len(calls) != 1:
+            rep.ob(rule, lab + " calls the base constructor once", False, "%d base-constructor calls" % len(calls), key=rule + "|%s|ncalls" % name)
+            continue
+        call, pos = calls[0]
+        found += 1
+        if any(isinstance(a, ast.Starred) for a in pos):
+            raise Unsupported("%s forwards *args to the base constructor" % name)
+        bound = {}
+        for i, a in enumerate(pos):
+            if i >= len(bparams):
+                rep.ob(rule, lab, False, "too many positional arguments for the base constructor", key=rule + "|%s|arity" % name)
+                break
+            bound[bparams[i]] = a
+        for kw in call.keywords:
+            if kw.arg is not None:
+                bound[kw.arg] = kw.value
+        wrong = []
+        for prm, a in bound.items():
+            if isinstance(a, ast.Name) and a.id != prm and a.id in set(bparams) | set(bkwonly):
+                wrong.append("its `%s` is passed as the base's `%s`" % (a.id, prm))
+        dropped = [q for q in (bparams + bkwonly) if q in wparams and q not in bound]
+        ok = not wrong and not dropped
+        why = "; ".join(wrong + ["its option `%s` is not forwarded" % q for q in dropped]) if not ok else \
+            "%d arguments bound to the base parameters of the same name" % len(bound)
+        rep.ob(rule, lab + " forwards its arguments unchanged", ok, why, key=rule + "|%s|%s" % (name, why[:120] if not ok else ""),
+               sample={"wrapper": name, "base": bowner, "bound": {k: ast.unparse(v)[:40] for k, v in bound.items()}})
+        missing = [q for q in bparams[:n_required] if q not in bound]
+        if missing and not any(kw.arg is None for kw in call.keywords):
+            rep.ob(rule, lab + " supplies the required arguments", False, "missing %s" % missing, key=rule + "|%s|missing" % name)
+    rep.note("constructor_chains_%s" % family_root, found)
+    if found < min_found:
+        raise Unsupported("expected at least %d constructor chains below %s, found %d" % (min_found, family_root, found))
 
 
 def run(S, tier, rep):
@@ -399,13 +433,20 @@ def run(S, tier, rep):
                      "whole-array numba kernels are read as elementwise identities; the spread is classified as accumulate/assign")
     rep.explanation = ("by induction over the single writer, after any interleaving the integral is the Euler sum of dt_i * V_i and "
                        "evaluations leave it unchanged; the force is k*P + c*V with both coefficients scaled once")
+    wrappers_forward_options(S, rep)
+    broken_forwarding = any(not o["ok"] for o in rep.obligations)
     for dim in (2, 3):
         for reset in (True, False):
-            check_instance(S, dim, reset, rep)
+            try:
+                check_instance(S, dim, reset, rep)
+            except Unsupported:
+                if not broken_forwarding:
+                    raise
+                # (a transposed constructor argument makes the abstract instance meaningless, e.g. a thread count used as a flag:
+                # the forwarding violation above is the finding)
     who_may_write(S, rep)
-    wrappers_forward_options(S, rep)
     rep.require_min("C10.a", 30)
     rep.require_min("C10.b", 20)
     rep.require_min("C10.d", 8)
-    rep.require_min("C10.w", 2)
+    rep.require_min("C10.w", 3)
     rep.require_min("C10.e", 4)
